@@ -28,6 +28,9 @@ os.environ.setdefault("FROUROS_VERIF", "1")
 import numpy as np  # noqa: E402
 
 np.seterr(all="ignore")
+import logging  # noqa: E402
+
+logging.getLogger("frouros").setLevel(logging.CRITICAL)
 
 RTOL = 1e-9
 
